@@ -95,8 +95,8 @@ class Sequence(AbstractSequence):
 
         if self.parent is not None and self.parent.location is not None:
             if isinstance(key, slice):
-                rel_start = key.start
-                rel_end = key.stop
+                rel_start = 0 if key.start is None else key.start
+                rel_end = len(self) if key.stop is None else key.stop
             else:
                 rel_start = key
                 rel_end = key + 1
